@@ -46,7 +46,9 @@ type State struct {
 	heap   map[string]*Term
 	objs   map[int]Obj
 	text   map[string][]Piece // slice base (rendered) -> text view
-	nalloc int
+	nalloc int      // objects allocated since allocBase was set
+	allocBase *Term // allocation watermark: every object allocated so far has a reference <= allocBase + nalloc
+	allocated []*Term
 	spec   bool // executing a contract/spec function: no obligations, reads are total
 	assume bool // evaluating a contract as an assumption (BufIs binds)
 	globals map[string]int
@@ -137,7 +139,7 @@ func newState() *State {
 
 func (s *State) clone() *State {
 	n := &State{pc: append([]*Term{}, s.pc...), cells: make(map[int]Val, len(s.cells)), heap: make(map[string]*Term, len(s.heap)),
-		objs: make(map[int]Obj, len(s.objs)), text: make(map[string][]Piece, len(s.text)), nalloc: s.nalloc, spec: s.spec, assume: s.assume,
+		objs: make(map[int]Obj, len(s.objs)), text: make(map[string][]Piece, len(s.text)), nalloc: s.nalloc, allocBase: s.allocBase, allocated: append([]*Term{}, s.allocated...), spec: s.spec, assume: s.assume,
 		qdone: map[string]bool{}, trace: s.trace, globals: map[string]int{}, cut: s.cut, goal: s.goal, root: s.root}
 	for k, v := range s.globals {
 		n.globals[k] = v
@@ -251,7 +253,28 @@ var ifaceTags = map[string]types.Type{}
 
 func (s *State) allocRef() *Term {
 	s.nalloc++
-	return Add(alloc0, BVu(uint64(s.nalloc), 64))
+	r := Add(s.watermarkBase(), BVu(uint64(s.nalloc), 64))
+	s.allocated = append(s.allocated, r)
+	return r
+}
+
+func (s *State) watermarkBase() *Term {
+	if s.allocBase == nil {
+		return alloc0
+	}
+	return s.allocBase
+}
+
+// watermark: every reference allocated by the call so far is <= this term.
+func (s *State) watermark() *Term { return Add(s.watermarkBase(), BVu(uint64(s.nalloc), 64)) }
+
+// raiseWatermark is applied at a loop head: an unknown number of objects may have been allocated by earlier
+// iterations, so later allocations get references above a fresh symbolic watermark.
+func (s *State) raiseWatermark() {
+	wm := Sym(fresh("wm"), 64)
+	s.assumeT(And(ULe(s.watermark(), wm), ULt(wm, BVu(1<<62, 64))))
+	s.allocBase = wm
+	s.nalloc = 0
 }
 
 func (s *State) newCell(v Val) int {
